@@ -2,6 +2,7 @@
 """Regenerates /verif/seeded/RESULTS.md from seeded/*/meta.json and the first lines of each README."""
 import glob, json, os, re
 V = "/verif/seeded"
+HIST = json.load(open(V + "/HISTORY.json")) if os.path.exists(V + "/HISTORY.json") else {}
 rows = []
 for d in sorted(glob.glob(V + "/*/")):
     name = os.path.basename(d.rstrip("/"))
@@ -28,14 +29,19 @@ for d in sorted(glob.glob(V + "/*/")):
     for c in m.get("checks", []) or [{}]:
         rows.append((name, m.get("property", name.split("-")[0]), what, files, vtxt, c.get("check", "-"),
                      "CAUGHT" if c.get("caught") else ("missed" if c else "not run"),
-                     "; ".join(c.get("violation_keys", [])[:3]), c.get("wall_s", "")))
+                     "; ".join(c.get("violation_keys", [])[:3]), c.get("wall_s", ""),
+                     " -> ".join(("caught" if h["caught"] else ("missed" if h["exit"] == 0 else "run aborted"))
+                                 for h in HIST.get(name + " vs " + c.get("check", "-"), []))))
 out = ["# Seeded changes and which check catches them", "",
        "Each change was produced by an independent sub-agent that saw only the property text and its own worktree, "
        "then re-verified by the coordinator in a scratch worktree (clean tree: demonstration passes; patched tree: the 68 "
        "baseline tests pass and the demonstration fails) and run against the quick tier of the listed check with "
        "`tools/mutant.sh` (scratch copy of /repo + patch, own build root).", "",
-       "| change | breaks | files | independent verification | check | result | first keys | wall s |", "|---|---|---|---|---|---|---|---|"]
+       "`runs so far` lists every run of that check against that change in order (a `missed` followed by `caught` means the check "
+       "was strengthened in between, see DESIGN.md 9.2; `run aborted` = the run was stopped by the coordinator, e.g. a hang that "
+       "the framework of that time could not convict).", "",
+       "| change | breaks | files | independent verification | check | latest result | first keys | wall s | runs so far |", "|---|---|---|---|---|---|---|---|---|"]
 for r in rows:
-    out.append("| %s | %s %s | %s | %s | %s | **%s** | %s | %s |" % (r[0], r[1], ("– " + r[2]) if r[2] else "", r[3], r[4], r[5], r[6], r[7].replace("|", "/"), r[8]))
+    out.append("| %s | %s %s | %s | %s | %s | **%s** | %s | %s | %s |" % (r[0], r[1], ("– " + r[2]) if r[2] else "", r[3], r[4], r[5], r[6], r[7].replace("|", "/"), r[8], r[9]))
 open(V + "/RESULTS.md", "w").write("\n".join(out) + "\n")
 print("\n".join(out[-len(rows):]))
